@@ -111,7 +111,7 @@ func (v Val) ClientValue(ver int) interface{} {
 }
 
 func mustUnmarshal(s string, v interface{}) {
-	if err := json.Unmarshal([]byte(s), v); err != nil {
+	if err := lenientUnmarshal([]byte(s), v); err != nil {
 		panic(fmt.Sprintf("world: bad JSON %q: %v", s, err))
 	}
 }
